@@ -1,4 +1,6 @@
 import TorchDataVerif.Proofs.MPMapLive
+import TorchDataVerif.Proofs.MPIterB
+import TorchDataVerif.Proofs.MPStep
 /-!
 # MP, map-style, in-order: worker state deltas are applied exactly when their batch is consumed
 
@@ -48,7 +50,8 @@ def FlagMsg (c : Cfg) : Msg → Prop
 structure PosM (c : Cfg) (s : State) : Prop where
   wk : ∀ (w : Nat) (k : Worker), s.workers[w]? = some k →
     MQ c w k.pos (taskIdxs k.q) ∧ s.sendIdx ≤ w + c.W * (k.pos + (taskIdxs k.q).length) ∧
-    w + c.W * (k.pos + (taskIdxs k.q).length) < s.sendIdx + c.W ∧ (∀ m ∈ k.q, FlagMsg c m)
+    w + c.W * (k.pos + (taskIdxs k.q).length) < s.sendIdx + c.W ∧ (∀ m ∈ k.q, FlagMsg c m) ∧
+    k.iterEnd = false
   rq : ∀ r ∈ s.resQ, r.st = stOf c r.idx
   inf : ∀ e ∈ s.info, ∀ r, e.res = some r → r.st = stOf c r.idx
 
@@ -71,5 +74,313 @@ theorem add_mul_mod (W w j : Nat) (hw : w < W) : (w + W * j) % W = w := by
 
 theorem add_mul_div (W w j : Nat) (hw : w < W) : (w + W * j) / W = j := by
   rw [Nat.add_mul_div_left _ _ (by omega), Nat.div_eq_of_lt hw, Nat.zero_add]
+
+theorem tryPut_pos (c : Cfg) (s : State) (hv : c.Valid) (hm : c.iterable = false) (hio : c.inOrder = true)
+    (h : MidM c s) (hp : PosM c s) : PosM c (tryPut c s) := by
+  by_cases hlt : s.sendIdx < c.batches.length
+  · rw [tryPut_map_lt c s hv hm hio h.status h.sp h.cyc hlt]
+    have hW := hv.1
+    have hw0 : s.sendIdx % c.W < c.W := Nat.mod_lt _ hW
+    refine ⟨?_, ?_, ?_⟩
+    · intro w k hk
+      simp only [dispatchTo] at hk ⊢
+      obtain ⟨k0, hk0, e1, e2, _, e4⟩ := pushMsg_get _ _ _ _ _ hk
+      obtain ⟨q1, q2, q3, q4, q5⟩ := hp.wk w k0 hk0
+      have hwW : w < c.W := by rw [← h.wlen]; exact (List.getElem?_eq_some_iff.mp hk0).1
+      have hXm : (w + c.W * (k0.pos + (taskIdxs k0.q).length)) % c.W = w := add_mul_mod _ _ _ hwW
+      by_cases hw : s.sendIdx % c.W = w
+      · simp only [hw, if_true] at e4
+        have hX : w + c.W * (k0.pos + (taskIdxs k0.q).length) = s.sendIdx :=
+          eq_of_mod_eq c.W _ _ hW q2 q3 (by rw [hXm, hw])
+        rw [e4, taskIdxs_append, e1, e2]
+        simp only [taskIdxs, List.length_append, List.length_singleton]
+        refine ⟨MQ_snoc c w _ _ _ q1 hX.symm, ?_, ?_, ?_, q5⟩
+        · rw [show k0.pos + ((taskIdxs k0.q).length + 1) = (k0.pos + (taskIdxs k0.q).length) + 1 by omega,
+            Nat.mul_succ]; omega
+        · rw [show k0.pos + ((taskIdxs k0.q).length + 1) = (k0.pos + (taskIdxs k0.q).length) + 1 by omega,
+            Nat.mul_succ]; omega
+        · intro m hm'
+          rw [List.mem_append, List.mem_singleton] at hm'
+          rcases hm' with hm' | hm'
+          · exact q4 m hm'
+          · subst hm'
+            simp only [FlagMsg, h.sp]
+            exact flags_map_snd c hm _ _
+      · simp only [hw, if_false] at e4
+        rw [e4, e1, e2]
+        refine ⟨q1, ?_, by omega, q4, q5⟩
+        have hne : w + c.W * (k0.pos + (taskIdxs k0.q).length) ≠ s.sendIdx := by
+          intro heq; rw [heq] at hXm; exact hw hXm
+        omega
+    · simpa [dispatchTo] using hp.rq
+    · intro e he r hr
+      simp only [dispatchTo, List.mem_append, List.mem_singleton] at he
+      rcases he with he | he
+      · exact hp.inf e he r hr
+      · subst he; cases hr
+  · rw [tryPut_map_ge c s hm h.sp (by omega)]
+    exact ⟨hp.wk, hp.rq, hp.inf⟩
+
+theorem yieldItem_wsnaps (c : Cfg) (s : State) (r : Res) (b : Nat) (hio : c.inOrder = true) :
+    (yieldItem c s r b).1.wsnaps = applyDelta s.wsnaps r.w r.st := by
+  unfold yieldItem
+  dsimp only
+  split
+  · rcases takeSnapshot_cases c { s with lastW := r.w, wsnaps := applyDelta s.wsnaps r.w r.st } hio with ht | ⟨e, rest, ht⟩
+    · rw [ht]
+    · rw [ht]
+  · rfl
+
+theorem stOf_err (c : Cfg) (idx : Nat) (h : c.batches[idx]? = some .err) : stOf c idx = none := by
+  simp [stOf, h]
+
+/-- Pop + process of task `rcvd_idx` applies exactly `stOf rcvd_idx` to the snapshot of its owner. -/
+theorem popProc_delta (c : Cfg) (s : State) (e : Info) (l : List Info) (r : Res) (hv : c.Valid)
+    (hm : c.iterable = false) (hio : c.inOrder = true) (hmid : MidM c s) (hp : PosM c s)
+    (hws : s.wsnaps = wsAfter c s.rcvdIdx) (hi : s.info = e :: l) (hg : GoodRes c r) (hri : r.idx = s.rcvdIdx)
+    (hst : r.st = stOf c r.idx) :
+    PosM c (popProc c s l r) ∧ (popProc c s l r).wsnaps = wsAfter c (popProc c s l r).rcvdIdx := by
+  have hinfo := hmid.info
+  rw [hi] at hinfo
+  have hlen := hmid.len
+  rw [hi] at hlen
+  simp only [List.length_cons] at hlen
+  have h1 : MidM c { s with info := l, rcvdIdx := s.rcvdIdx + 1, numTasks := s.numTasks.modify r.w (· - 1) } := by
+    refine ⟨hmid.status, hmid.sp, hmid.le, hmid.cyc, ?_, hinfo.2.2.2, hmid.wlen, hmid.msgs, hmid.resq⟩
+    simp only; omega
+  have hp1 : PosM c { s with info := l, rcvdIdx := s.rcvdIdx + 1, numTasks := s.numTasks.modify r.w (· - 1) } :=
+    ⟨hp.wk, hp.rq, fun e' he' => hp.inf e' (by rw [hi]; exact List.mem_cons_of_mem _ he')⟩
+  have hp2 := tryPut_pos c _ hv hm hio h1 hp1
+  have hc := tryPut_sameCore c { s with info := l, rcvdIdx := s.rcvdIdx + 1, numTasks := s.numTasks.modify r.w (· - 1) }
+  have hproc : processData c { s with info := l, rcvdIdx := s.rcvdIdx + 1 } r =
+      (match r.kind with
+       | .data b => yieldItem c (tryPut c { s with info := l, rcvdIdx := s.rcvdIdx + 1, numTasks := s.numTasks.modify r.w (· - 1) }) r b
+       | _ => (tryPut c { s with info := l, rcvdIdx := s.rcvdIdx + 1, numTasks := s.numTasks.modify r.w (· - 1) }, .error)) := by
+    unfold processData; rfl
+  generalize tryPut c { s with info := l, rcvdIdx := s.rcvdIdx + 1, numTasks := s.numTasks.modify r.w (· - 1) } = s2
+    at hp2 hc hproc
+  have hr2 : s2.rcvdIdx = s.rcvdIdx + 1 := hc.rcvdIdx
+  have hw2 : s2.wsnaps = s.wsnaps := hc.wsnaps
+  have hnext : wsAfter c (s.rcvdIdx + 1) = applyDelta (wsAfter c s.rcvdIdx) r.w r.st := by
+    rw [wsAfter, hst, hri, hg.1, hri]
+  unfold popProc
+  rw [hproc]
+  obtain ⟨it, hit, hk⟩ := hg.2
+  cases it with
+  | ok b =>
+    simp only [kindOf] at hk
+    simp only [hk]
+    have hp3 := yieldItem_sameProto c s2 r b
+    have hw3 := yieldItem_wsnaps c s2 r b hio
+    generalize yieldItem c s2 r b = y at hp3 hw3
+    obtain ⟨s3, o⟩ := y
+    simp only at hp3 hw3
+    simp only [finish]
+    refine ⟨⟨?_, ?_, ?_⟩, ?_⟩
+    · simp only [hp3.workers, hp3.sendIdx]; exact hp2.wk
+    · simp only [hp3.resQ]; exact hp2.rq
+    · simp only [hp3.info]; exact hp2.inf
+    · simp only [hw3, hp3.rcvdIdx, hr2, hw2, hws, hnext]
+  | err =>
+    simp only [kindOf] at hk
+    simp only [hk, finish]
+    refine ⟨⟨hp2.wk, hp2.rq, hp2.inf⟩, ?_⟩
+    have : r.st = none := by rw [hst, hri]; rw [hri] at hit; exact stOf_err c _ hit
+    simp only [hr2, hw2, hws, hnext, this, applyDelta]
+
+structure DeltaM (c : Cfg) (s : State) : Prop where
+  pos : s.shutdown = false → PosM c s
+  ws : s.wsnaps = wsAfter c s.rcvdIdx
+
+theorem PosM_of_eq (c : Cfg) (s s' : State) (h : PosM c s) (e1 : s'.workers = s.workers) (e2 : s'.sendIdx = s.sendIdx)
+    (e3 : s'.resQ = s.resQ) (e4 : s'.info = s.info) : PosM c s' :=
+  ⟨by rw [e1, e2]; exact h.wk, by rw [e3]; exact h.rq, by rw [e4]; exact h.inf⟩
+
+theorem loopCase_delta (c : Cfg) (s s' : State) (hv : c.Valid) (hm : c.iterable = false) (hio : c.inOrder = true)
+    (hmid : MidM c s) (hp : PosM c s) (hws : s.wsnaps = wsAfter c s.rcvdIdx) (hl : LoopCase c s s') :
+    DeltaM c s' := by
+  cases hl with
+  | stop hle heq =>
+    subst heq
+    simp only [finish]
+    by_cases hpz : c.persistent = true
+    · simp only [hpz, if_true]
+      exact ⟨fun _ => PosM_of_eq c s _ hp rfl rfl rfl rfl, hws⟩
+    · have hp' : c.persistent = false := by simpa using hpz
+      simp only [hp', Bool.false_eq_true, if_false]
+      have hsm := shutdownWorkers_sameMain c s
+      exact ⟨fun hf => (by simp only [shutdownWorkers_shutdown] at hf; cases hf),
+        (by simp only [hsm.wsnaps, hsm.rcvdIdx]; exact hws)⟩
+  | wait e l hi hres heq =>
+    subst heq
+    exact ⟨fun _ => PosM_of_eq c s _ hp rfl rfl rfl rfl, hws⟩
+  | proc e l r hi hres hg hri heq =>
+    subst heq
+    have hst := hp.inf e (by rw [hi]; exact List.mem_cons_self ..) r hres
+    obtain ⟨a1, a2⟩ := popProc_delta c s e l r hv hm hio hmid hp hws hi hg hri hst
+    exact ⟨fun _ => a1, a2⟩
+
+theorem step_deltaM (c : Cfg) (s s' : State) (a : Action) (hv : c.Valid) (hm : c.iterable = false)
+    (hio : c.inOrder = true) (ha : a ≠ .reset) (h : InvM c s) (hd : DeltaM c s)
+    (hst : step c s a = some s') : DeltaM c s' ∨ died s' := by
+  cases a with
+  | reset => exact absurd rfl ha
+  | work w =>
+    left
+    simp only [step] at hst
+    split at hst
+    · cases hst
+    · rename_i k hk
+      split at hst
+      · cases hst
+      · split at hst
+        · cases hst
+        · rename_i m rest hq
+          cases hst
+          refine ⟨fun hsd => ?_, hd.ws⟩
+          simp only at hsd
+          have hp := hd.pos hsd
+          have hmid := h.mid hsd
+          obtain ⟨q1, q2, q3, q4, q5⟩ := hp.wk w k hk
+          have hwl : w < s.workers.length := (List.getElem?_eq_some_iff.mp hk).1
+          have hwW : w < c.W := by rw [← hmid.wlen]; exact hwl
+          have hgm := hmid.msgs w k hk m (by rw [hq]; exact List.mem_cons_self ..)
+          rw [hsd]
+          refine ⟨?_, ?_, hp.inf⟩
+          · intro w' k' hk'
+            simp only [List.getElem?_set] at hk'
+            by_cases hw : w = w'
+            · subst hw
+              simp only [if_true, hwl] at hk'
+              cases hk'
+              rw [hq] at q1 q2 q3 q4
+              cases m with
+              | stop =>
+                simp only [handle, taskIdxs] at q1 q2 q3 ⊢
+                exact ⟨q1, q2, q3, fun m' hm' => q4 m' (List.mem_cons_of_mem _ hm'), q5⟩
+              | resume => exact hgm.elim
+              | task idx p sn =>
+                simp only [taskIdxs, List.length_cons] at q1 q2 q3
+                obtain ⟨hidx, hrest⟩ := q1
+                obtain ⟨hpi, hlt, _⟩ := hgm
+                have hlt' : p < c.batches.length := by have := hmid.le; omega
+                simp only [handle, q5, Bool.or_false, Bool.false_eq_true, if_false, fetch, hm,
+                  List.getD_eq_getElem?_getD, List.getElem?_eq_getElem hlt', Option.getD_some]
+                have hrest' : ∀ m' ∈ rest, FlagMsg c m' := fun m' hm' => q4 m' (List.mem_cons_of_mem _ hm')
+                cases hb : c.batches[p] with
+                | ok b0 =>
+                  simp only []
+                  refine ⟨hrest, ?_, ?_, hrest', trivial⟩
+                  · rw [show k.pos + 1 + (taskIdxs rest).length = k.pos + ((taskIdxs rest).length + 1) by omega]
+                    exact q2
+                  · rw [show k.pos + 1 + (taskIdxs rest).length = k.pos + ((taskIdxs rest).length + 1) by omega]
+                    exact q3
+                | err =>
+                  simp only []
+                  refine ⟨hrest, ?_, ?_, hrest', trivial⟩
+                  · rw [show k.pos + 1 + (taskIdxs rest).length = k.pos + ((taskIdxs rest).length + 1) by omega]
+                    exact q2
+                  · rw [show k.pos + 1 + (taskIdxs rest).length = k.pos + ((taskIdxs rest).length + 1) by omega]
+                    exact q3
+            · simp only [hw, if_false] at hk'
+              exact hp.wk w' k' hk'
+          · intro r hr
+            rw [hq] at q1 q4
+            cases m with
+            | stop => simp only [handle] at hr; exact hp.rq r hr
+            | resume => exact hgm.elim
+            | task idx p sn =>
+              simp only [taskIdxs] at q1
+              obtain ⟨hidx, _⟩ := q1
+              obtain ⟨hpi, hlt, _⟩ := hgm
+              have hlt' : p < c.batches.length := by have := hmid.le; omega
+              have hsn : sn = flag2 c idx := q4 _ (List.mem_cons_self ..)
+              simp only [handle, q5, Bool.or_false, Bool.false_eq_true, if_false, fetch, hm,
+                List.getD_eq_getElem?_getD, List.getElem?_eq_getElem hlt', Option.getD_some] at hr
+              have hdiv : idx / c.W = k.pos := by rw [hidx]; exact add_mul_div c.W w k.pos hwW
+              subst hpi
+              cases hb : c.batches[p] with
+              | ok b0 =>
+                simp only [hb, List.mem_append, List.mem_singleton] at hr
+                rcases hr with hr | hr
+                · exact hp.rq r hr
+                · subst hr
+                  simp only [stOf, List.getElem?_eq_getElem hlt', hb, hdiv, hsn]
+              | err =>
+                simp only [hb, List.mem_append, List.mem_singleton] at hr
+                rcases hr with hr | hr
+                · exact hp.rq r hr
+                · subst hr
+                  simp only [stOf, List.getElem?_eq_getElem hlt', hb]
+  | kill w =>
+    left
+    simp only [step] at hst
+    split at hst
+    · cases hst
+    · rename_i k hk
+      split at hst
+      · cases hst
+      · cases hst
+        refine ⟨fun hsd => ?_, hd.ws⟩
+        have hp := hd.pos hsd
+        have hwl : w < s.workers.length := (List.getElem?_eq_some_iff.mp hk).1
+        refine ⟨?_, hp.rq, hp.inf⟩
+        intro w' k' hk'
+        simp only [List.getElem?_set] at hk'
+        by_cases hw : w = w'
+        · subst hw
+          simp only [if_true, hwl] at hk'
+          cases hk'
+          exact hp.wk w k hk
+        · simp only [hw, if_false] at hk'
+          exact hp.wk w' k' hk'
+  | stateDict =>
+    left
+    simp only [step] at hst
+    split at hst
+    · cases hst
+    · cases hst
+      exact ⟨fun hsd => PosM_of_eq c s _ (hd.pos hsd) rfl rfl rfl rfl, hd.ws⟩
+  | pollTimeout =>
+    simp only [step] at hst
+    split at hst
+    · cases hst
+    · split at hst
+      · cases hst; exact Or.inl hd
+      · cases hst; right; simp [died]
+  | next =>
+    left
+    rcases next_cases c s s' hv h hst with ⟨hsd, heq⟩ | ⟨hsd, hph, hl⟩
+    · subst heq
+      exact ⟨fun hf => (by simp only [hsd] at hf; cases hf), hd.ws⟩
+    · exact loopCase_delta c s s' hv hm hio (h.mid hsd) (hd.pos hsd) hd.ws hl
+  | recv =>
+    left
+    obtain ⟨r, rest, hsd, hph, hq, hg, hlt, hmid0, hr⟩ := recv_cases c s s' hv hm hio h hst
+    have hp := hd.pos hsd
+    have hst' : r.st = stOf c r.idx := hp.rq r (by rw [hq]; exact List.mem_cons_self ..)
+    have hp0 : PosM c { s with resQ := rest } :=
+      ⟨hp.wk, fun r' hr' => hp.rq r' (by rw [hq]; exact List.mem_cons_of_mem _ hr'), hp.inf⟩
+    cases hr with
+    | now e l hi hri heq =>
+      subst heq
+      have hmid1 : MidM c { s with resQ := rest, outstanding := s.outstanding - 1 } :=
+        MidM_of_eq c _ _ hmid0 rfl rfl rfl rfl rfl rfl rfl rfl
+      obtain ⟨a1, a2⟩ := popProc_delta c { s with resQ := rest, outstanding := s.outstanding - 1 } e l r hv hm hio hmid1
+        (PosM_of_eq c _ _ hp0 rfl rfl rfl rfl) hd.ws hi hg hri hst'
+      exact ⟨fun _ => a1, a2⟩
+    | store hne hmid2 hl =>
+      refine loopCase_delta c _ s' hv hm hio hmid2 ⟨hp0.wk, hp0.rq, ?_⟩ hd.ws hl
+      intro e he r' hr'
+      simp only [setRes, List.mem_map] at he
+      obtain ⟨e0, he0, heq⟩ := he
+      by_cases hx : e0.idx = r.idx
+      · simp [hx] at heq; subst heq
+        simp only [Option.some.injEq] at hr'
+        subst hr'; exact hst'
+      · have : (e0.idx == r.idx) = false := by simp [hx]
+        simp only [this] at heq
+        subst heq
+        exact hp.inf e0 he0 r' hr'
 
 end TDV.MP
